@@ -39,18 +39,18 @@ theorem runSess_congr (fl fl' : SessFlags) (prog : List (List CCond × SAct))
     rw [evalCPath_congr fl fl' ga.1 (fun f hf => h f (by simp [progFlags, hf]))]
     exact ih (fun f hf => h f (by simp [progFlags, hf])) _
 
-theorem hasContext_mem_progFlags : ∀ prog, Flag.hasContext ∈ progFlags prog
+theorem hasContext_mem_progFlags : ∀ prog, SessFlag.hasContext ∈ progFlags prog
   | [] => by simp [progFlags]
   | _ :: rest => by simp [progFlags, hasContext_mem_progFlags rest]
 
-theorem filter_mem_subsets (p : Flag → Bool) : ∀ l : List Flag, l.filter p ∈ subsets l
-  | [] => by simp [subsets]
+theorem filter_mem_subsets (p : SessFlag → Bool) : ∀ l : List SessFlag, l.filter p ∈ flagSubsets l
+  | [] => by simp [flagSubsets]
   | f :: fs => by
     have ih := filter_mem_subsets p fs
     by_cases hp : p f = true
-    · rw [List.filter_cons_of_pos hp]; simp only [subsets]
+    · rw [List.filter_cons_of_pos hp]; simp only [flagSubsets]
       exact List.mem_append_right _ (List.mem_map.mpr ⟨_, ih, rfl⟩)
-    · rw [List.filter_cons_of_neg hp]; simp only [subsets]
+    · rw [List.filter_cons_of_neg hp]; simp only [flagSubsets]
       exact List.mem_append_left _ ih
 
 /-- the run under ANY flag valuation equals the run under the valuation that switches on exactly
@@ -69,16 +69,16 @@ theorem runSess_restrict (prog : List (List CCond × SAct)) (fl : SessFlags) :
 /-- reduction: a predicate that holds for every sub-list valuation (containing / not containing
     `hasContext` as required) holds for every valuation -/
 theorem forall_flags_of_subsets (prog : List (List CCond × SAct)) (P : SessState → Prop) (b : Bool)
-    (hall : ∀ S ∈ subsets (progFlags prog), S.contains Flag.hasContext = b → P (runSess prog (SessFlags.ofList S)))
+    (hall : ∀ S ∈ flagSubsets (progFlags prog), S.contains SessFlag.hasContext = b → P (runSess prog (SessFlags.ofList S)))
     (fl : SessFlags) (hb : fl .hasContext = b) : P (runSess prog fl) := by
   rw [runSess_restrict]
   apply hall _ (filter_mem_subsets fl _)
   cases b with
   | true =>
-    have : Flag.hasContext ∈ (progFlags prog).filter fl := List.mem_filter.mpr ⟨hasContext_mem_progFlags prog, hb⟩
+    have : SessFlag.hasContext ∈ (progFlags prog).filter fl := List.mem_filter.mpr ⟨hasContext_mem_progFlags prog, hb⟩
     simpa using this
   | false =>
-    have : Flag.hasContext ∉ (progFlags prog).filter fl := fun hm => by
+    have : SessFlag.hasContext ∉ (progFlags prog).filter fl := fun hm => by
       have := (List.mem_filter.mp hm).2; simp [hb] at this
     simpa using this
 
